@@ -485,15 +485,9 @@ func (s *genState) genSession() *Case {
 		nc = 7
 	}
 	stream := r.Chance(1, 3)
-	hasRerun := false
-	for _, g := range c.Forest {
-		// (a workflow node interrupted through Stream: its pending input is the stream before
-		// the field mapping, which convertCheckPoint cannot turn into the node's input type)
-		hasRerun = hasRerun || g.Wf
-		for _, nd := range g.Nodes {
-			hasRerun = hasRerun || nd.Rerun
-		}
-	}
+	// (until the repairs 61097fc / 51c8622 and their neighbours, sessions with a workflow or
+	// with a rerun node had to stay on Invoke: the checkpoint could not convert a workflow node's
+	// pending stream input, and a node re-run through Stream was handed an empty stream)
 	c.Share = r.Chance(1, 4)
 	var base0 []BOp
 	var pass0 []int
@@ -506,11 +500,6 @@ func (s *genState) genSession() *Case {
 		}
 		if !r.Chance(1, 4) {
 			cl.Stream = stream // mostly one way of calling per session, sometimes mixed
-		}
-		if hasRerun {
-			// a node that is re-run through Stream is handed an empty stream, which an invokable
-			// lambda cannot concatenate
-			cl.Stream, cl.InStr = false, false
 		}
 		// no WithLambdaOption(a, b) of two types: it fails inside the node, in the middle of the run
 		for j := range cl.Script {
